@@ -3,6 +3,7 @@ import CC.Generated.Hashing
 import CC.Generated.Consts
 import CC.Model.Sym
 import CC.Props.C12
+import CC.Model.Wire
 /-! # C07 — encapsulations and ciphertexts are non-malleable -/
 
 namespace CC.Props.C07
@@ -103,5 +104,30 @@ theorem header_metadata_non_malleable (usk : Usk) (x : XEnc) (c : Sealed) (seed 
     (h : decaps usk x = some seed) (ht : c.tamper ≠ .intact) :
     hdrDecrypt usk ⟨x, some c⟩ ad = .error .crypto :=
   CC.Props.C12.header_tampered_rejected usk x c seed ad h ht
+
+/-! ## D15 — the serialised form is malleable through LEB128
+
+The statement "any modification of a valid encapsulation … makes decapsulation return no secret" is
+**false** of the code and of the model at the level of *bytes*: the LEB128 decoder accepts redundant
+continuation bytes, so the count / flavour fields of an encapsulation can be rewritten (`02` as
+`82 00`) and the modified byte string decodes to the very same encapsulation, which every authorised
+key opens. `binding` above is about the *decoded* components and stays true. Witness by evaluation of
+the wire decoder; replayed on the implementation by the `noncanon` operator of the C07 campaign
+(known finding D15). -/
+
+/-- two different byte strings, one number -/
+theorem noncanonical_leb_accepted : Wire.leb [0x82, 0x00] = Wire.leb [0x02] ∧ ([0x82, 0x00] : List UInt8) ≠ [0x02] := by
+  decide
+
+/-- hence two different serialisations of one (classic, one-trap, one-component) encapsulation -/
+theorem encapsulation_bytes_malleable :
+    let tag := List.replicate 16 (0 : UInt8)
+    let trap := List.replicate 32 (1 : UInt8)
+    let f := List.replicate 32 (2 : UInt8)
+    let honest := tag ++ [0x01] ++ trap ++ [0x00] ++ [0x01] ++ f
+    let padded := tag ++ [0x81, 0x00] ++ trap ++ [0x00] ++ [0x01] ++ f
+    honest ≠ padded ∧ Wire.xenc Wire.cfgC25519 padded = Wire.xenc Wire.cfgC25519 honest ∧
+      (Wire.xenc Wire.cfgC25519 honest).isSome = true := by
+  decide
 
 end CC.Props.C07
